@@ -40,6 +40,16 @@ GROUPS = [
     ("+c16", r"^primitive::End\[Parser\]|^combinator::ThenIgnore\[Parser\]|^primitive::(Select|SelectRef)\[Parser\]", ["C16"]),
     ("+c05", r"^recovery::|^combinator::(SeparatedBy|Repeated)\[|^combinator::Validate\[|^combinator::NestedIn\[", ["C05"]),
     ("+c20", r"^recovery::|^combinator::(Repeated|SeparatedBy|Collect|CollectExactly|Foldl|FoldlWith|Foldr|FoldrWith)\[Parser\]::go|^pratt::Pratt::pratt_go|^combinator::Not\[", ["C20"]),
+    # "an error-free result with an output means the grammar consumed every token" rests on every combinator: none may accept
+    # unmatched tokens (a rejecting closure skipped in one mode) or lose an emitted error
+    ("+c03b", r".", ["C03"]),
+    # text::{int, digits, ident, keyword, whitespace ..} are compositions (GRAMMAR pins the term): the combinators the terms are made of,
+    # incl. the configured form of `repeated()` that `digits(..).configure(..)` goes through
+    ("+c14", r"^combinator::(TryMap|ToSlice|Ignored|Then|Or|Map|Repeated)\[|^primitive::(Any|Just)\[", ["C14"]),
+    # context providers in iterable form are driven by the iterable combinators (a.then(b) chains, collect, folds)
+    ("+c15", r"^combinator::(Then|OrNot|Map|MapWith)\[IterParser\]|^combinator::(Collect|CollectExactly|Foldl|FoldlWith|Foldr|FoldrWith|IntoIter|Enumerate)\[", ["C15"]),
+    # errors emitted inside a nested parse must surface / be discarded like any others: validate, and the choices that backtrack over it
+    ("+c16b", r"^combinator::Validate\[|^primitive::Choice\[|^combinator::Or\[", ["C16"]),
     ("+c06", r"^primitive::(End|Just|OneOf|NoneOf|Any|AnyRef|Select|SelectRef|Custom)\[|^combinator::(Filter|TryMap|TryMapWith|Not)\[", ["C06"]),
 ]
 
